@@ -52,3 +52,16 @@ def design_level(ctx, module, workers=16, required=True):
     ctx.add_tlc(stats)
     ctx.cov.setdefault("design_level", {})[module] = {"states": stats["distinct"], "wall_s": round(stats["wall_s"], 1)}
     return stats
+
+
+def corpus(ctx):
+    """programs (with keyword context and optional explicit values) that every run of this property includes: regression cases, and the cases
+    that reproduce the listed known findings"""
+    import json
+    path = os.path.join(os.path.dirname(tlc.SPEC), "corpus", ctx.prop + ".json")
+    if not os.path.exists(path):
+        return []
+    def hook(d):
+        return bytes(d["__bytes__"]) if "__bytes__" in d else d
+    with open(path) as f:
+        return json.load(f, object_hook=hook)
